@@ -61,9 +61,15 @@ def firstBad (C : Codec) : Nat → PStr → Option (Nat × Nat)
   | _, [] => none
   | i, c :: cs => if C.canEnc c then firstBad C (i + 1) cs else some (i, c)
 
+/-- the `errors=` argument of `str.encode` / `Tag.encode` (the handlers whose result depends only on the code point;
+    `namereplace` needs the Unicode name table, `surrogateescape`/`surrogatepass` are about lone surrogates only — not
+    modelled, see the harness' `errors` stream for what is compared) -/
 inductive Handler where
   | strict
+  | ignore
+  | replace
   | xmlcharrefreplace
+  | backslashreplace
   deriving DecidableEq, Repr
 
 /-- result of `str.encode`: bytes, or `UnicodeEncodeError(start, code point)` -/
@@ -72,16 +78,42 @@ inductive EncResult where
   | unicodeEncodeError (pos : Nat) (c : Nat)
   deriving DecidableEq, Repr
 
-/-- `s.encode(C, errors)`. Under `xmlcharrefreplace` the replacement text goes through the encoder too, so a codec that
-    cannot write `&#0-9;` still raises (CPython: "character maps to <undefined>" on the replacement). -/
+def hexDigit (d : Nat) : Nat := if d < 10 then 48 + d else 87 + d
+
+/-- `width` lower-case hex digits of `n`, most significant first -/
+def toHexFixed : Nat → Nat → PStr
+  | 0, _ => []
+  | w + 1, n => toHexFixed w (n / 16) ++ [hexDigit (n % 16)]
+
+/-- `backslashreplace`: `\xhh`, `\uhhhh` or `\Uhhhhhhhh` (codecs.backslashreplace_errors) -/
+def backslashEscape (c : Nat) : PStr :=
+  if c < 0x100 then [92, 120] ++ toHexFixed 2 c
+  else if c < 0x10000 then [92, 117] ++ toHexFixed 4 c
+  else [92, 85] ++ toHexFixed 8 c
+
+/-- what the handler substitutes for one unencodable code point (`none`: it raises) -/
+def replacementFor (h : Handler) (c : Nat) : Option PStr :=
+  match h with
+  | .strict => none
+  | .ignore => some []
+  | .replace => some [63]
+  | .xmlcharrefreplace => some (charref c)
+  | .backslashreplace => some (backslashEscape c)
+
+/-- the string the codec ends up encoding under a non-strict handler -/
+def handled (C : Codec) (h : Handler) (s : PStr) : PStr :=
+  s.flatMap (fun c => if C.canEnc c then [c] else (replacementFor h c).getD [])
+
+/-- `s.encode(C, errors)`. The replacement text goes through the encoder too, so a codec that cannot write `&#0-9;`
+    (resp. `?`, `\x…`) still raises (CPython: "character maps to <undefined>" on the replacement). -/
 def pyEncode (C : Codec) (h : Handler) (s : PStr) : EncResult :=
   match h with
   | .strict =>
     match firstBad C 0 s with
     | some (i, c) => .unicodeEncodeError i c
     | none => .bytes (C.enc s)
-  | .xmlcharrefreplace =>
-    let r := xmlcharrefreplace C s
+  | h =>
+    let r := handled C h s
     match firstBad C 0 r with
     | some (i, c) => .unicodeEncodeError i c
     | none => .bytes (C.enc r)
@@ -117,7 +149,11 @@ def isPythonSpecific (e : PStr) : Bool := pythonSpecificEncodings.contains e
 /-- `CharsetMetaAttributeValue.substitute_encoding` (element.py:207-214) -/
 def substituteCharset (e : PStr) : PStr := if isPythonSpecific e then [] else e
 
-def isReSpace (c : Nat) : Bool := reWhitespace.contains c
+/-- `\s` inside the live `CHARSET_RE` -/
+def isReSpace (c : Nat) : Bool := charsetReSpace.contains c
+
+/-- `str.isspace()` = what `str.strip()` removes -/
+def isPySpace (c : Nat) : Bool := reWhitespace.contains c
 
 /-- a sequence of one-character classes at the head of `s`; the rest after it -/
 def matchClasses : List (List Nat) → PStr → Option PStr
@@ -179,14 +215,21 @@ inductive AttrVal where
   | plain (v : PStr)
   | charsetMeta (orig : PStr)
   | contentMeta (orig : PStr)
+  /-- `None`: the attribute is written as its bare name -/
+  | novalue
+  /-- a list/tuple value (multi-valued attribute such as `class`): `" ".join(val)` -/
+  | list (vs : List PStr)
   deriving DecidableEq, Repr
 
 def AttrVal.str : AttrVal → PStr
   | .plain v => v
   | .charsetMeta o => o
   | .contentMeta o => o
+  | .novalue => []
+  | .list vs => [32].intercalate vs
 
-/-- `_format_tag` (element.py:2566-2575): substitution only when `eventual_encoding is not None` -/
+/-- `_format_tag` (element.py:2566-2575), the value part: a list is joined first (`isinstance(val, list) or …tuple`), then —
+    `elif` — a placeholder is substituted, and only when `eventual_encoding is not None` -/
 def attrValue (ev : Option PStr) : AttrVal → PStr
   | .plain v => v
   | .charsetMeta o => match ev with
@@ -195,6 +238,8 @@ def attrValue (ev : Option PStr) : AttrVal → PStr
   | .contentMeta o => match ev with
     | none => o
     | some e => substituteContent e o
+  | .novalue => []
+  | .list vs => [32].intercalate vs
 
 def lookupAttr (k : PStr) : List (PStr × AttrVal) → Option AttrVal
   | [] => none
@@ -212,15 +257,27 @@ def asciiLower (s : PStr) : PStr := s.map (fun c => if 65 ≤ c && c ≤ 90 then
 /-- HTML5 style (builder/__init__.py:680-684): a `charset` attribute becomes a placeholder -/
 def subCharsetStep (attrs : List (PStr × AttrVal)) : List (PStr × AttrVal) :=
   match lookupAttr (ofS "charset") attrs with
+  | some .novalue => attrs     -- `charset is not None`
   | some cs => setAttr (ofS "charset") (.charsetMeta cs.str) attrs
   | none => attrs
+
+/-- `tag.get_attribute_list(key)` (element.py:2179-2200): a list value as it is, a string as a one-element list, `None` as
+    no element -/
+def attributeList : AttrVal → List PStr
+  | .list vs => vs
+  | .novalue => []
+  | v => [v.str]
+
+/-- `any(x.lower() == "content-type" for x in http_equiv)` -/
+def isContentType (he : AttrVal) : Bool := (attributeList he).any (fun x => asciiLower x = ofS "content-type")
 
 /-- HTML4 style (builder/__init__.py:686-692): `content` becomes a placeholder when `http-equiv` is `content-type` in any
     letter case -/
 def subContentStep (attrs : List (PStr × AttrVal)) : List (PStr × AttrVal) :=
   match lookupAttr (ofS "content") attrs, lookupAttr (ofS "http-equiv") attrs with
+  | some .novalue, _ => attrs  -- `content is not None`
   | some ct, some he =>
-    if asciiLower he.str = ofS "content-type" then setAttr (ofS "content") (.contentMeta ct.str) attrs else attrs
+    if isContentType he then setAttr (ofS "content") (.contentMeta ct.str) attrs else attrs
   | _, _ => attrs
 
 /-- `HTMLTreeBuilder.set_up_substitutions` (builder/__init__.py:642-694) on a parsed tag's attributes, as repaired: the two
@@ -271,8 +328,11 @@ def insertAttr (a : PStr × AttrVal) : List (PStr × AttrVal) → List (PStr × 
 /-- `Formatter.attributes`: sorted by key (formatter.py:170-190) -/
 def sortAttrs (l : List (PStr × AttrVal)) : List (PStr × AttrVal) := l.foldr insertAttr []
 
+/-- one attribute: `key` alone when the value is `None`, else `key="value"` -/
 def formatAttr (ev : Option PStr) (a : PStr × AttrVal) : PStr :=
-  a.1 ++ [61] ++ quotedAttributeValue (substituteXml (attrValue ev a.2))
+  match a.2 with
+  | .novalue => a.1
+  | v => a.1 ++ [61] ++ quotedAttributeValue (substituteXml (attrValue ev v))
 
 /-- `_format_tag(opening=True)` -/
 def openTag (ev : Option PStr) (name : PStr) (attrs : List (PStr × AttrVal)) (isEmpty : Bool) : PStr :=
@@ -305,7 +365,7 @@ def decodeKids (ev : Option PStr) (parent : PStr) : List Node → PStr
   | k :: ks => decodeNode ev parent k ++ decodeKids ev parent ks
 end
 
-def pyStrip (s : PStr) : PStr := ((s.dropWhile isReSpace).reverse.dropWhile isReSpace).reverse
+def pyStrip (s : PStr) : PStr := ((s.dropWhile isPySpace).reverse.dropWhile isPySpace).reverse
 
 def indentOf (level : Nat) : PStr := (List.replicate level formatterIndent).flatten
 
@@ -339,6 +399,16 @@ def decodeContentsImpl (indent : Option Nat) (ev : Option PStr) : Node → PStr
     match indent with
     | none => decodeKids ev n ks
     | some l => prettyKids ev n l ks
+
+/-- `str(tag)` / `repr(tag)` / `tag.decode()`: `eventual_encoding` defaults to `DEFAULT_OUTPUT_ENCODING`, so a declared
+    charset IS rewritten (to `utf-8`) even though a str is produced; only `decode(eventual_encoding=None)` leaves it alone -/
+def strImpl (t : Node) : PStr := decodeImpl none (some defaultOutputEncoding) t
+
+/-- `tag.prettify()` without an encoding (element.py:2630-2631): `decode(indent_level=0)`, same default -/
+def prettifyStrImpl (t : Node) : PStr := decodeImpl (some 0) (some defaultOutputEncoding) t
+
+/-- `tag.decode_contents()` with its defaults -/
+def decodeContentsDefault (t : Node) : PStr := decodeContentsImpl none (some defaultOutputEncoding) t
 
 /-- `Tag.encode(encoding, indent_level, errors=…)` (element.py:2321-2348): `decode(indent_level, encoding)` then
     `u.encode(encoding, errors)` -/
